@@ -13,6 +13,9 @@ from . import core, driver, gens, impl, streams
 from .streams import Result, strip_keys, first_diff
 
 
+THOROUGH_SCALE = int(os.environ.get("VERIF_THOROUGH_SCALE", "4"))
+
+
 @dataclass
 class Ctx:
     prop: str
@@ -24,7 +27,11 @@ class Ctx:
     known_seen: set = field(default_factory=set)
 
     def n(self, quick, thorough):
-        return thorough if self.thorough else quick
+        """size of a stream in the quick / thorough tier; counts (not enumeration bounds) are scaled
+        up further in the thorough tier (THOROUGH_SCALE)"""
+        if not self.thorough:
+            return quick
+        return thorough * THOROUGH_SCALE if thorough >= 100 else thorough
 
 
 # ------------------------------------------------------------------ helpers
